@@ -89,6 +89,8 @@ def gen_cases(tier, seed):
     for i in range(24 if tier == "quick" else 300):
         yield "cli_sig", {"key": hex(rng.choice(keys) if i % 3 == 0 else rng.randrange(1, N)), "msg": rand_bytes(rng, rng.choice([0, 1, 32, 100])).hex(),
                           "flag": FLAGS[i % 6], "pre": i % 2 == 1, "fmt": ["hex", "raw", "bin"][i % 3], "omit_default_sighash": (i // 6) % 2 == 0}
+    for i in range(3 if tier == "quick" else 30):
+        yield "arg_forms", {"key": hex(rng.randrange(1, N)), "msg": rand_bytes(rng, 40).hex(), "k": hex(rng.randrange(1, N))}
     # (c) nonce reuse histories
     for i in range(6 if tier == "quick" else 60):
         yield "reuse", {"pool_seed": rng.getrandbits(32), "nk": 3, "nm": 3}
@@ -245,6 +247,20 @@ def run_case(kind, params, ctx):
                 # not a property clause by itself (any valid nonce is fine) — logged as statistic
                 ctx.count("stat.result_differs_from_scripted_nonce")
         check_signature(ctx, "scripted", d, z, r, s, None)
+        return
+    if kind == "arg_forms":
+        from .common import arg_forms
+        d, k = int(params["key"], 16), int(params["k"], 16)
+        msg = bytes.fromhex(params["msg"])
+
+        def signer(key, m, flag=1, pre=False):
+            with RngShim(script=[k]):
+                return bu.sig(key, m, sighash_flag=flag, msg_preimage=pre)
+        arg_forms(ctx, "sig", lambda key, m: signer(key, m), [k32(d), msg], prop_exc=(ContractViolation,), mutation="stat")
+        arg_forms(ctx, "sig(preimage)", lambda key, m: signer(key, m, 3, True), [k32(d), msg + (3).to_bytes(4, "little")], prop_exc=(ContractViolation,), mutation="stat")
+        r, s_ = recdsa.sign_with_k(d, 12345, k)
+        arg_forms(ctx, "der_decode_sig", bu.der_decode_sig, [rder.encode(r, min(s_, N - s_))], prop_exc=(ContractViolation,))
+        ctx.nontrivial()
         return
     if kind == "api":
         d = int(params["key"], 16)
